@@ -149,7 +149,9 @@ class CHECK(Check):
                   "(eg/grid_weighted_error_affine), arg-min sets over ANY hypothesis class coincide in both directions "
                   "(eg/grid_argmin_iff), the DummyClassifier shortcut returns a minimiser (dummy_is_minimiser, "
                   "eg/grid_dummy_minimises_lagrangian), zero-weight rows' labels are irrelevant so > vs >= is harmless "
-                  "(relabel_nonstrict_harmless), regression reductions (loss_oracle_identity, loss_grid_identity). Tie: translator-"
+                  "(relabel_nonstrict_harmless), regression reductions (loss_oracle_identity, loss_grid_identity); lagrangian_identity "
+                  "(objective + constraints), project_lambda_guarantee (any ratio; slack >= 0 needed: "
+                  "project_lambda_needs_nonneg_slack), objective_needs_unit_interval. Tie: translator-"
                   "lifted expressions + fairlearn's numbers vs the compiled Lean model; the identities are also "
                   "evaluated directly on fairlearn's own gamma / signed_weights / project_lambda outputs.")
     design_ref = "DESIGN.md section 4, C07"
